@@ -79,7 +79,8 @@ func genFECase(seed uint64, i int) feCase {
 	kinds := []string{"malformed-go-version", "unknown-failOn", "rules-pattern-without-match", "empty-selection", "empty-selection-by-disable", "unparsable-parameter",
 		"torn-write", "lost-write", "lost-package", "flipped-identifier", "mixed-package-clauses", "none",
 		"torn-write-at-zero", "torn-in-package-clause", "flipped-keyword", "comment-only-file", "torn-test-file",
-		"rules-valid-then-pattern-without-match", "unknown-failOn-with-other-checkers", "non-positive-concurrency"}
+		"rules-valid-then-pattern-without-match", "unknown-failOn-with-other-checkers", "non-positive-concurrency",
+		"malformed-import-path", "unresolved-import"}
 	c.Fault = kinds[(i/len(frontends))%len(kinds)]
 	switch c.Fault {
 	case "malformed-go-version":
@@ -109,7 +110,17 @@ func genFECase(seed uint64, i int) feCase {
 	default:
 		c.Class = "workspace"
 	}
-	_ = analysis
+	if c.Class == "workspace" || c.Class == "none" {
+		// half of the workspace cases run every checker (some checkers ask the library for
+		// more per-file tables than the default set does)
+		if r.Intn(2) == 0 || c.Fault == "malformed-import-path" || c.Fault == "unresolved-import" {
+			if analysis {
+				c.Flags = append(c.Flags, "-enable-all")
+			} else {
+				c.Flags = append(c.Flags, "-enableAll")
+			}
+		}
+	}
 	return c
 }
 
@@ -147,6 +158,11 @@ func writeWorkspace(dir string, n int, c *feCase, at int) error {
 				a = strings.Replace(a, fmt.Sprintf("return Helper%d(a)", i), fmt.Sprintf("return Helpex%d(a)", i), 1)
 			case "mixed-package-clauses":
 				b = strings.Replace(b, fmt.Sprintf("package p%d", i), "package other", 1)
+			case "malformed-import-path":
+				// one flipped byte inside an import path: not a legal path any more
+				a = strings.Replace(a, fmt.Sprintf("package p%d\n", i), fmt.Sprintf("package p%d\n\nimport \"bad path\"\n", i), 1)
+			case "unresolved-import":
+				a = strings.Replace(a, fmt.Sprintf("package p%d\n", i), fmt.Sprintf("package p%d\n\nimport gone \"example.com/ws/gone\"\n\nvar _ = gone.X\n", i), 1)
 			case "lost-package":
 				a, b = "", "" // every file gone: importers cannot resolve the package
 			case "torn-write-at-zero":
